@@ -2,9 +2,11 @@ package engines
 
 import (
 	"bytes"
+	"compress/gzip"
 	"encoding/hex"
 	"encoding/json"
 	"fmt"
+	"io"
 	"os"
 	"reflect"
 	"strconv"
@@ -209,6 +211,9 @@ func checkPackage(ctx *Ctx, fd protoreflect.FileDescriptor, tick func(what strin
 			return fmt.Errorf("%s: validity of New()/Zero() is wrong", name)
 		}
 		tick("go type identities " + string(name))
+		if err := legacyPath(m.Interface(), "Descriptor", md); err != nil {
+			return err
+		}
 		// field descriptors used by Range are the registry's, and every type a
 		// field refers to is the registry's own descriptor object (no placeholder)
 		fds := md.Fields()
@@ -257,6 +262,9 @@ func checkPackage(ctx *Ctx, fd protoreflect.FileDescriptor, tick func(what strin
 		et, err := protoregistry.GlobalTypes.FindEnumByName(ed.FullName())
 		if err != nil {
 			return fmt.Errorf("enum %s not in GlobalTypes: %v", ed.FullName(), err)
+		}
+		if err := legacyPath(et.New(0), "EnumDescriptor", ed); err != nil {
+			return err
 		}
 		if et.Descriptor() != ed {
 			return fmt.Errorf("EnumType(%s).Descriptor() is not the registry's descriptor object", ed.FullName())
@@ -588,3 +596,78 @@ func checkC19Value(ctx *Ctx, c *Case) error {
 }
 
 func f32bits(f float64) uint32 { return mathFloat32bits(float32(f)) }
+
+// legacyPath checks the deprecated generated method Descriptor() /
+// EnumDescriptor(), which returns the gzipped raw file descriptor and the index
+// path of the type inside it: following the path must arrive at the type itself.
+func legacyPath(v interface{}, method string, d protoreflect.Descriptor) error {
+	mv := reflect.ValueOf(v).MethodByName(method)
+	if !mv.IsValid() || mv.Type().NumIn() != 0 || mv.Type().NumOut() != 2 {
+		return nil // not generated for this type
+	}
+	out := mv.Call(nil)
+	gz, ok1 := out[0].Interface().([]byte)
+	path, ok2 := out[1].Interface().([]int)
+	if !ok1 || !ok2 {
+		return nil
+	}
+	zr, err := gzip.NewReader(bytes.NewReader(gz))
+	if err != nil {
+		return fmt.Errorf("%s: %s() does not return gzipped data: %v", d.FullName(), method, err)
+	}
+	raw, err := io.ReadAll(zr)
+	if err != nil {
+		return fmt.Errorf("%s: %s() does not return gzipped data: %v", d.FullName(), method, err)
+	}
+	fdp := &descriptorpb.FileDescriptorProto{}
+	if err := (proto.UnmarshalOptions{AllowPartial: true}).Unmarshal(raw, fdp); err != nil {
+		return fmt.Errorf("%s: %s() does not return a file descriptor: %v", d.FullName(), method, err)
+	}
+	if fdp.GetName() != d.ParentFile().Path() {
+		return fmt.Errorf("%s: %s() returns the descriptor of file %q, the type lives in %q", d.FullName(), method, fdp.GetName(), d.ParentFile().Path())
+	}
+	if len(path) == 0 {
+		return fmt.Errorf("%s: %s() returns an empty path", d.FullName(), method)
+	}
+	name := fdp.GetPackage()
+	join := func(n string) {
+		if name == "" {
+			name = n
+		} else {
+			name += "." + n
+		}
+	}
+	_, isEnum := d.(protoreflect.EnumDescriptor)
+	var cur *descriptorpb.DescriptorProto
+	for i, idx := range path {
+		last := i == len(path)-1
+		switch {
+		case last && isEnum && cur == nil:
+			if idx < 0 || idx >= len(fdp.EnumType) {
+				return fmt.Errorf("%s: %s() path %v leaves the file (no top-level enum #%d)", d.FullName(), method, path, idx)
+			}
+			join(fdp.EnumType[idx].GetName())
+		case last && isEnum:
+			if idx < 0 || idx >= len(cur.EnumType) {
+				return fmt.Errorf("%s: %s() path %v names no enum (no nested enum #%d in %s)", d.FullName(), method, path, idx, name)
+			}
+			join(cur.EnumType[idx].GetName())
+		case cur == nil:
+			if idx < 0 || idx >= len(fdp.MessageType) {
+				return fmt.Errorf("%s: %s() path %v leaves the file (no top-level message #%d)", d.FullName(), method, path, idx)
+			}
+			cur = fdp.MessageType[idx]
+			join(cur.GetName())
+		default:
+			if idx < 0 || idx >= len(cur.NestedType) {
+				return fmt.Errorf("%s: %s() path %v names nothing (no nested message #%d in %s)", d.FullName(), method, path, idx, name)
+			}
+			cur = cur.NestedType[idx]
+			join(cur.GetName())
+		}
+	}
+	if name != string(d.FullName()) {
+		return fmt.Errorf("%s: the path %v returned by the generated %s() leads to %s", d.FullName(), path, method, name)
+	}
+	return nil
+}
